@@ -22,9 +22,13 @@ TID = {'Article': 0, 'Tag': 1}
 RELNO = {'tags': 0, 'article': 1, 'articles': 1}
 REG = {'articles': '0/0/o2m:1:1;1/1/m2o:0:1', 'm2m': '0/0/m2m:1:0:1;1/1/m2m:0:0:0'}
 # dotted (two-level, cyclic) relationship paths per shape and class: they lead back to the class of the target
+# (a call may name several paths, also paths sharing their first component: 'tags,tags.article' is
+# revert(relations=['tags', 'tags.article']) - the relationship is restored ONCE)
 DOTTED = {
-    'articles': {'Article': [('tags', 'tags.article')], 'Tag': [('article', 'article.tags')]},
-    'm2m': {'Article': [('tags', 'tags.articles')], 'Tag': [('articles', 'articles.tags')]},
+    'articles': {'Article': [('tags', 'tags.article'), ('tags', 'tags,tags.article')],
+                 'Tag': [('article', 'article.tags'), ('article', 'article.tags,article')]},
+    'm2m': {'Article': [('tags', 'tags.articles'), ('tags', 'tags,tags.articles')],
+            'Tag': [('articles', 'articles.tags'), ('articles', 'articles.tags,articles')]},
 }
 
 
@@ -181,7 +185,7 @@ class C05(Prop):
             'actually restored); distinct = (history, target, relationships)')
     assumptions = ['dotted paths: one cyclic two-level path per class and shape (not every path of every depth)',
                    'that the revert transaction is itself versioned correctly is C01/C02/C11 (history_all)']
-    needs_tags = ['target_delete_version', 'entity_deleted_now', 'rel:o2m', 'rel:m2m', 'rel:m2o', 'middle_version', 'excluded_col',
+    needs_tags = ['several_paths_one_prefix', 'target_delete_version', 'entity_deleted_now', 'rel:o2m', 'rel:m2m', 'rel:m2o', 'middle_version', 'excluded_col',
                   'repeated_revert', 'dotted_path', 'dotted_second_level_entity']
 
     def counts(self, tier):
@@ -213,6 +217,23 @@ class C05(Prop):
                     out.append(st)
                 prog = out
             yield {'spec': spec, 'shape': shape, 'program': prog, 'excluded': excl}
+        # a related entity shown by SEVERAL second-level parents and deleted since: it is re-created when the recursion
+        # reaches it first and must be linked to every parent that shows it
+        for _ in range(3 if tier == 'quick' else 40):
+            spec = make_spec('m2m', rng.choice(['validity', 'subquery']))
+            prog = [['add', 'Tag', [1], {'name': 1}], ['add', 'Tag', [2], {'name': 2}], ['add', 'Article', [1], {'name': 1}],
+                    ['add', 'Article', [2], {'name': 2}]]
+            pairs = [(1, 1), (1, 2), (2, 1), (2, 2)]
+            rng.shuffle(pairs)
+            for a, t in pairs[:rng.choice([3, 4, 4])]:
+                prog.append(['link', 'Article', [a], 'tags', 'Tag', [t]])
+            prog += [['commit']]
+            if rng.random() < 0.5:
+                prog += [['set', 'Article', [1], 'name', 5], ['commit']]
+            prog += [rng.choice([['del', 'Tag', [2]], ['del', 'Article', [2]]]), ['commit']]
+            if rng.random() < 0.4:
+                prog += [['set', 'Tag', [1], 'name', 6], ['commit']]
+            yield {'spec': spec, 'shape': 'm2m', 'program': prog, 'excluded': [], 'family': 'shared_deleted_child'}
 
     def run_case(self, case):
         env, r, obs = replay(case)
@@ -242,7 +263,7 @@ class C05(Prop):
             # dotted paths: the call names e.g. 'tags.article'; the target clause and the clause of the FIRST level are
             # judged (the second level leads back to other versions of entities already reverted; the frame is not judged)
             for first, path in DOTTED[case['shape']][cname]:
-                res = one_revert(case, (cname, pk, tx), (path,))
+                res = one_revert(case, (cname, pk, tx), tuple(path.split(',')))
                 res.update({'target': [cname, pk, tx, op], 'rels': [first], 'dotted': path})
                 results.append(res)
         return {'results': results}
@@ -270,10 +291,10 @@ class C05(Prop):
             if res.get('dotted'):
                 # every level of the path: the log of versions the recursion model reverts, C05.DeepHolds on the rows after
                 lines.append('q05n %d %s %d %s %s' % (TID[cname], pk[0], tx, REG[case['shape']],
-                                                     '.'.join(str(RELNO[n]) for n in res['dotted'].split('.'))))
+                                                     ','.join('.'.join(str(RELNO[n]) for n in p_.split('.')) for p_ in res['dotted'].split(','))))
                 # ... and the WHOLE state: rows and links predicted by the recursion model revertF from the state before
                 lines.append('q05f %d %s %d %s %s' % (TID[cname], pk[0], tx, REG[case['shape']],
-                                                     '.'.join(str(RELNO[n]) for n in res['dotted'].split('.'))))
+                                                     ','.join('.'.join(str(RELNO[n]) for n in p_.split('.')) for p_ in res['dotted'].split(','))))
             lines.append('q05 %d %s %d %s' % (TID[cname], pk[0], tx, rels))
             lines.append('reset')
         return lines
@@ -349,6 +370,8 @@ class C05(Prop):
                                        'model': {'links_before': res['before']['links'], 'live_before': res['before']['live']}})
             if res.get('dotted'):
                 out.tags.append('dotted_path')
+                if ',' in res['dotted']:
+                    out.tags.append('several_paths_one_prefix')
                 frame = '1'
             if res.get('repeated'):
                 out.tags.append('repeated_revert')
